@@ -362,6 +362,9 @@ class SpecGen:
             elif zlib.crc32(ln.encode()) % 3 == 0 and self._switch_in_gap(body, ctx):
                 # a whole switch stands between the length and the item that refers to it
                 self.feat("length-gap-switch")
+            elif zlib.crc32(ln.encode()) % 6 == 1 and self._switch_in_gap(body, ctx, on_length=ln):
+                # ... a switch on the count itself
+                self.feat("switch-on-length")
             else:
                 k = rng.choice(INT_KINDS)
                 n2 = self.field_name(ctx)
@@ -388,11 +391,11 @@ class SpecGen:
         self.feat("length:offset%+d" % offset if offset else "length:offset0")
         return True
 
-    def _switch_in_gap(self, body, ctx):
+    def _switch_in_gap(self, body, ctx, on_length=None):
         """emit_switch, undone again when it would leave the enclosing body in a state where no plain item may follow."""
         mark = len(body)
         saved = (ctx.opt, ctx.dummy, ctx.tail_open, set(ctx.switched), dict(ctx.scope))
-        if self.emit_switch(body, ctx) and not (ctx.opt or ctx.dummy or ctx.tail_open):
+        if self.emit_switch(body, ctx, on_length) and not (ctx.opt or ctx.dummy or ctx.tail_open):
             return True
         del body[mark:]
         ctx.opt, ctx.dummy, ctx.tail_open = saved[:3]
@@ -421,11 +424,13 @@ class SpecGen:
         self.feat("dummy")
         return True
 
-    def emit_switch(self, body, ctx):
+    def emit_switch(self, body, ctx, on_length=None):
         rng = self.rng
         if ctx.depth >= 3:
             return False
         cands = [n for n, i in ctx.scope.items() if i["kind"] == "field" and i.get("tkind") in ("int", "enum") and not i["optional"] and i.get("value") is None and n not in ctx.switched]
+        if on_length is not None:
+            cands = [on_length]
         if not cands:
             return False
         fname = rng.choice(cands)
